@@ -495,9 +495,16 @@ func (f *c06Fix) checkAdmitted(step int, what string, tx Transaction, data, payl
 	if string(tx.Data()) != string(data) || !tx.Ref().Equals(hash.SHA256Sum(data)) {
 		bad("ref-not-hash-of-bytes", "the reference is not the hash of the offered bytes")
 	}
+	// well-formed + exactly once: the reference is the hash of the bytes, so the same signed content must not be admissible
+	// under two references; an admitted byte string must BE the canonical compact serialisation
+	if kind := c06SerialisationKind(data); kind != "" {
+		bad("non-canonical-serialisation:"+kind, "it is not the canonical JWS compact serialisation (%s): the same signature is admissible under more than one transaction reference", kind)
+	}
 	d, err := c06Decode(data)
 	if err != nil {
-		bad("not-a-jws", "an independent decoder does not see a JWS: %v", err)
+		if c06SerialisationKind(data) == "" {
+			bad("not-a-jws", "an independent decoder does not see a JWS: %v", err)
+		}
 		return
 	}
 	if d.nsigs != 1 {
@@ -558,7 +565,8 @@ func (f *c06Fix) checkAdmitted(step int, what string, tx Transaction, data, payl
 	}
 	if pub != nil && c06AllowedAlgs[alg] && !c06VerifyRaw(alg, pub, d.signingInput, d.sig) {
 		if c06VerifyRaw(alg, pub, d.canonicalInput, d.sig) {
-			x.Class("admitted:non-canonical-base64 (same signed content under a new reference)")
+			// verifies over the re-canonicalised segments only: already reported above as non-canonical serialisation
+			x.Class("admitted:signature-verifies-only-after-recanonicalisation")
 		} else {
 			bad("bad-signature", "an independent %s verification of the signing input fails under the designated key", alg)
 		}
